@@ -311,6 +311,19 @@ def run(c, chk):
     # ---- R1.3 ---------------------------------------------------------------------------
     reset_typestate(c, chk, model)
 
+    # ---- R1.5: a repeated title replaces that section in place, also in a case-insensitive context ----
+    chk.rule('R1.5', 'the title merge of the section store folds case according to the context flags (like option names)')
+    from . import c09
+    ex_ = sym.Explorer(c.modules, max_visits=2, mod_sets=c.mod_sets, max_paths=60000)
+    ts = c09.title_sites(c, ex_)
+    if 'cfg_t' in ts.get('cfg_setopt', set()):
+        chk.ok('R1.5', 'cfg_setopt: title merge', 'an incoming title is compared with the existing ones under cfg->flags CFGF_NOCASE', sample=True)
+    else:
+        chk.fail('R1.5', 'title-merge-case:cfg_setopt', c.where(c.need('cfg_setopt')),
+                 'cfg_setopt() no longer compares an incoming title with the existing ones under the context\'s CFGF_NOCASE (found: %s): '
+                 'in a case-insensitive context a repeated title in other letter case is appended instead of replacing the section'
+                 % (sorted(str(x) for x in ts.get('cfg_setopt', [])) or 'no comparison of its own'))
+
     # ---- R1.4 ---------------------------------------------------------------------------
     type_dispatch(c, chk)
 
